@@ -9,8 +9,7 @@ import OpusProofs.CeltAllocFinal
   * What C03 needs from the allocation beyond that is stated as a contract on its coder calls (`AllocOps`): at most
     63 of them, every `ec_dec_uint` with `2 ≤ ft < 2^32`.  (True of rate.c — one skip flag per band, the intensity
     `uint` with `ft = codedBands+1-start`, one dual-stereo flag — but a statement about C17's model.)
-  * Under it `celtFrame` never reports `.oob` / `.abort`: it returns a frame or `INTERNAL_ERROR` (the
-    `ec_tell(dec) > 8*len` exit of celt_decoder.c:1357).
+  * Under it `celtFrame` always returns a frame.
 -/
 namespace Opus.CeltBandsProofs
 open Opus Opus.RangeCoder Opus.CeltSymsFrozen Opus.CeltBands Opus.CeltSyms
@@ -139,12 +138,12 @@ theorem allocDrive_ok (p : CeltAlloc.Inp) (hp : OpusProofs.CeltAlloc.Dom p) (hop
 
 /-- **Totality of the CELT frame model.**  From any decoder state satisfying `J` (a fresh `ec_dec_init`, or the state
     the SILK layer hands over in a hybrid frame), for every legal configuration and arbitrary bytes, `celtFrame` returns
-    a frame or `INTERNAL_ERROR` — never `.oob` / `.abort`: no laplace.c assertion, the allocation returns, no pulse-cache
+    a frame — never an error, `.oob` or `.abort`: no laplace.c assertion, the allocation returns, no pulse-cache
     index leaves `cache.bits`, every `ec_dec_uint` has `2 ≤ ft < 2^32`, every `V(N,K)` is found in the table. -/
 theorem celtFrame_total (cfg : CeltCfg) (len : Nat) (c : Dec) (hj : J c) (hl : cfg.LM < 4) (hC : cfg.C = 1 ∨ cfg.C = 2)
     (hse : cfg.start < cfg.end_) (he : cfg.end_ ≤ 21) (hlen : len ≤ 262144)
     (hops : ∀ h, celtHeader cfg len c = .ok h → AllocOps (allocInp cfg h)) :
-    (∃ f, celtFrame cfg len c = .ok f) ∨ celtFrame cfg len c = .err .internalError := by
+    ∃ f, celtFrame cfg len c = .ok f := by
   unfold celtFrame
   obtain ⟨h, hh, _⟩ := celtHeader_ok cfg hl len c hj
   rw [hh]
@@ -156,8 +155,6 @@ theorem celtFrame_total (cfg : CeltCfg) (len : Nat) (c : Dec) (hj : J c) (hl : c
   have hf := afterAlloc_fault cfg len h o { s with tr := [] } hl (by omega) he hs
   rw [hf]
   simp only [Bool.false_eq_true, if_false]
-  split
-  · exact Or.inr rfl
-  · exact Or.inl ⟨_, rfl⟩
+  exact ⟨_, rfl⟩
 
 end Opus.CeltBandsProofs
